@@ -190,6 +190,12 @@ def replay(cand: dict) -> dict:
         s2 = myjson.dumps(c2, sort_keys=True)
         ok = isinstance(c2, metabook.Collection) and s1 == s2 and shape_of(c) == shape_of(c2)
         if ok:
+            for x, y in zip(c.walk(), c2.walk()):
+                for attr in ("title", "displaytitle", "revision", "note", "content_type"):
+                    if getattr(x, attr, None) != getattr(y, attr, None):
+                        return {"reproduced": True, "signature": "C13|roundtrip|attribute-changed",
+                                "what": f"attribute {attr!r} = {getattr(x, attr, None)!r} comes back as {getattr(y, attr, None)!r} from myjson.loads(myjson.dumps(c)); JSON text: {s1[:160]!r}"}
+        if ok:
             return {"reproduced": False, "what": "real myjson round trip is a fixed point for this collection"}
         return {"reproduced": True, "signature": "C13|roundtrip", "what": f"myjson.loads(myjson.dumps(c)) differs: {s1[:200]!r} -> {s2[:200]!r}"}
     r = h_distinct(**{k: a[k] for k in ("which", "t0", "t1", "tnew", "r0", "rnew", "hr0")})
